@@ -377,7 +377,8 @@ def oracles_sync(op, S0, S1, out, hist, stats):
         return v
 
     # ---- C10 R2: truth untouched
-    if truth is not None and S0.get(truth["file"]) != S1.get(truth["file"]):
+    truth_also_target = truth is not None and any(ff == truth["file"] and k != op["truth"] for k, _n, ff in iter_targets(op))
+    if truth is not None and not truth_also_target and S0.get(truth["file"]) != S1.get(truth["file"]):
         v.append(viol("C10", "R2-truth-modified", op, "the truth file %s was modified by a sync naming it as truth" % truth["file"],
                       target_kind=target_kind(op["truth"], op["targets"][op["truth"]]["name"])))
 
@@ -926,6 +927,14 @@ def oracles_sync_properties(op, S0, S1, out, stats):
                 continue
         if have is None or _ws(have) != _ws(want):
             v.append(viol("C14", "N-annotation", op, "%s carries annotation %r, expected %r from %s" % (".".join(apath), have, want, a), **pc))
+        elif not ev and isinstance(ri["node"], ast.AnnAssign) and isinstance(ra["node"], ast.AnnAssign):
+            # statement replaced by statement: "the one addressed in the input file", i.e. its value too
+            vi = None if ri["node"].value is None else ast.dump(ri["node"].value)
+            va = None if ra["node"].value is None else ast.dump(ra["node"].value)
+            stats["sp_value_checked"] = stats.get("sp_value_checked", 0) + 1
+            if vi != va:
+                v.append(viol("C14", "N-value", op, "%s = %s, the input's %s has the value %s" % (
+                    ".".join(apath), None if ra["node"].value is None else ast.unparse(ra["node"].value), a, None if ri["node"].value is None else ast.unparse(ri["node"].value)), **pc))
     return v
 
 
